@@ -340,7 +340,7 @@ def execute_c09b(plan):
             order = [i for i, _ in ref_tr]
             exempt = set(lost[pid])
             if carry and exempt:
-                first = min(order.index(i) for i in exempt if i in order)
+                first = min([order.index(i) for i in exempt if i in order] or [len(order)])
                 exempt |= set(order[first:])
             for i, t in ref_tr:
                 if i in exempt:
